@@ -1,7 +1,7 @@
 (* C01 — convergence at quiescence. Property theorems only. *)
 From Coq Require Import List Arith.
 From RG Require Import Comp.Conv.
-From RG Require Comp.Core Proofs.CoreProofsABC Proofs.CoreProofsDEF.
+From RG Require Comp.Core Comp.CoreKv Proofs.CoreProofsABC Proofs.CoreProofsDEF.
 Import ListNotations.
 
 (* One cached resource, any number of subscribers, every interleaving of service mutations, the get answer,
@@ -76,3 +76,16 @@ Theorem C01_core_client_copy_without_second_premise_refuted :
     ~ Core.no_bare_resp nat nat Nat.add 0 outs.
 Proof. exact CoreProofsABC.core_client_copy_without_premise_refuted. Qed.
 Print Assumptions C01_core_client_copy_without_second_premise_refuted.
+
+(* The same for the instance that is run in lock-step with the gateway (models and collections, Comp/CoreKv.v): its two
+   premises are theorems (cnorm_none, cnorm_some), so nothing is assumed. *)
+Theorem C01_core_kv_client_copy_converges :
+  forall t ops c,
+  let s := fst (Core.exec CoreKv.cval CoreKv.cupd CoreKv.capp CoreKv.cnorm (CoreKv.VM []) t ops) in
+  let outs := snd (Core.exec CoreKv.cval CoreKv.cupd CoreKv.capp CoreKv.cnorm (CoreKv.VM []) t ops) in
+  Core.quiescent CoreKv.cval CoreKv.cupd s -> Core.disc (Core.conns CoreKv.cval CoreKv.cupd s c) = false ->
+  Core.no_underflow CoreKv.cval CoreKv.cupd CoreKv.capp c outs -> Core.no_bare_resp CoreKv.cval CoreKv.cupd CoreKv.capp c outs ->
+  0 < Core.lcnt CoreKv.cval (Core.client CoreKv.cval CoreKv.cupd CoreKv.capp c outs) ->
+  Core.lcopy CoreKv.cval (Core.client CoreKv.cval CoreKv.cupd CoreKv.capp c outs) = Some (Conv.truth CoreKv.cval CoreKv.cupd (Core.cv CoreKv.cval CoreKv.cupd s)).
+Proof. exact (CoreProofsABC.core_convergence CoreKv.cval CoreKv.cupd CoreKv.capp CoreKv.cnorm (CoreKv.VM []) CoreKv.cnorm_none CoreKv.cnorm_some). Qed.
+Print Assumptions C01_core_kv_client_copy_converges.
